@@ -73,6 +73,8 @@ def ty_str(t):
         return t[1]
     if t[0] == "list":
         return "(List %s)" % ty_str(t[1])
+    if t[0] == "set":
+        return "(List %s)" % ty_str(t[1])     # a Python set, kept duplicate-free by `pySetAdd`
     raise Unsupported("type " + repr(t))
 
 
@@ -85,6 +87,8 @@ def ty_join(a, b):
         return a
     if not isinstance(a, str) and not isinstance(b, str) and a[0] == "list" and b[0] == "list":
         return ("list", ty_join(a[1], b[1]))
+    if not isinstance(a, str) and not isinstance(b, str) and a[0] == "set" and b[0] == "set":
+        return ("set", ty_join(a[1], b[1]))
     if a == ("opt", None):
         return b if (not isinstance(b, str) and b[0] == "opt") else ("opt", b)
     if b == ("opt", None):
@@ -187,6 +191,9 @@ class FnTr:
                     self.bind(st.targets[0], self.etype(st.value))
                 elif isinstance(st, ast.AugAssign):
                     self.bind(st.target, self.etype(st.value))
+                elif isinstance(st, ast.Call) and isinstance(st.func, ast.Attribute) and st.func.attr == "add" \
+                        and len(st.args) == 1 and self.vkey(st.func.value) is not None:
+                    self.bind(st.func.value, ("set", self.etype(st.args[0])))
                 elif isinstance(st, ast.Call) and isinstance(st.func, ast.Attribute) and st.func.attr == "append" \
                         and len(st.args) == 1 and self.vkey(st.func.value) is not None:
                     self.bind(st.func.value, ("list", self.etype(st.args[0])))
@@ -284,6 +291,9 @@ class FnTr:
                 bt = bt[1]
             if bt is not None and not isinstance(bt, str) and bt[0] == "tuple" and isinstance(e.slice, ast.Constant):
                 return bt[1][e.slice.value]
+            if bt is not None and not isinstance(bt, str) and bt[0] == "tuple" and isinstance(e.slice, ast.Slice) \
+                    and e.slice.lower is None and e.slice.step is None and isinstance(e.slice.upper, ast.Constant):
+                return ("tuple", bt[1][:e.slice.upper.value])
             if bt is not None and not isinstance(bt, str) and bt[0] == "list":
                 return bt[1]
             return None
@@ -291,6 +301,10 @@ class FnTr:
             f = e.func.id
             if f in ("min", "max", "len", "int"):
                 return "Int"
+            if f == "bool":
+                return "Bool"
+            if f == "set" and not e.args:
+                return ("set", None)
             if f == self.pname:
                 return self.ret
             if f in self.ctx.fns:
@@ -298,6 +312,9 @@ class FnTr:
         return None
 
     # ---- expressions ----
+    def is_set(self, t):
+        return t is not None and not isinstance(t, str) and t[0] == "set"
+
     def is_opt(self, t):
         return t is not None and not isinstance(t, str) and t[0] == "opt"
 
@@ -362,6 +379,13 @@ class FnTr:
                 i, n = e.slice.value, len(bt[1])
                 proj = ".2" * i + (".1" if i < n - 1 else "")
                 return "%s%s" % (base, proj)
+            if bt is not None and not isinstance(bt, str) and bt[0] == "tuple" and isinstance(e.slice, ast.Slice) \
+                    and e.slice.lower is None and e.slice.step is None and isinstance(e.slice.upper, ast.Constant):
+                k2, n = e.slice.upper.value, len(bt[1])
+                if not (2 <= k2 <= n):
+                    raise Unsupported("tuple slice")
+                comps = ["%s%s" % (base, ".2" * i2 + (".1" if i2 < n - 1 else "")) for i2 in range(k2)]
+                return "(" + ", ".join(comps) + ")"
             if bt is not None and not isinstance(bt, str) and bt[0] == "list":
                 return "(← pyIndex %s %s)" % (base, self.expr(e.slice, "num"))
             raise Unsupported("subscript of %r" % (bt,))
@@ -371,6 +395,12 @@ class FnTr:
                 return "(%s %s %s)" % (f, self.expr(e.args[0], "num"), self.expr(e.args[1], "num"))
             if f == "len" and len(e.args) == 1:
                 return "(%s.length : Int)" % self.expr(e.args[0])
+            if f == "set" and not e.args:
+                return "[]"
+            if f == "bool" and len(e.args) == 1:
+                return "(decide %s)" % self.cond_pure(e.args[0])
+            if f == "int" and len(e.args) == 1 and self.etype(e.args[0]) == "Bool":
+                return "(if %s then (1 : Int) else (0 : Int))" % self.cond_pure(e.args[0])
             if f == "int" and len(e.args) == 1 and self.etype(e.args[0]) is not None and \
                     self.etype(e.args[0])[0] == "enum":
                 return "(%s.toInt %s)" % (self.etype(e.args[0])[1], self.expr(e.args[0]))
@@ -446,6 +476,18 @@ class FnTr:
             k = self.vkey(a)
             nm = lname(k.replace("self.", "self_"))
             return "(%s = none)" % nm if isinstance(op, ast.Is) else "(%s ≠ none)" % nm
+        if isinstance(op, (ast.In, ast.NotIn)):
+            neg = isinstance(op, ast.NotIn)
+            if isinstance(b, ast.Set):
+                body = "(" + " ∨ ".join("(%s = %s)" % (self.expr(a), self.expr(x)) for x in b.elts) + ")"
+            elif isinstance(b, ast.Name) and b.id in self.ctx.enums:
+                body = "True"      # a member of the enumeration by typing
+            elif self.is_set(self.etype(b)) or (self.etype(b) is not None and not isinstance(self.etype(b), str)
+                                                and self.etype(b)[0] == "list"):
+                body = "(%s ∈ %s)" % (self.expr(a, "num"), self.expr(b))
+            else:
+                raise Unsupported("`in` on %s" % type(b).__name__)
+            return "(¬ %s)" % body if neg else body
         ta, tb = self.etype(a), self.etype(b)
         sym = {ast.Lt: "<", ast.LtE: "≤", ast.Gt: ">", ast.GtE: "≥", ast.Eq: "=", ast.NotEq: "≠"}.get(type(op))
         if sym is None:
@@ -638,6 +680,10 @@ class FnTr:
                     isinstance(st.value.func, ast.Name) and st.value.func.id == "print":
                 out.append("%s-- print(...) dropped (line %d)" % (ind, st.lineno))
                 continue
+            if isinstance(st, ast.Expr) and isinstance(st.value, ast.Call) and \
+                    ast.unparse(st.value.func) == "warnings.warn":
+                out.append("%s-- warnings.warn(...) dropped (line %d)" % (ind, st.lineno))
+                continue
             if isinstance(st, ast.Pass):
                 if tail is None:
                     out.append("%spure ()" % ind)
@@ -661,12 +707,24 @@ class FnTr:
                 k = self.vkey(st.value.func.value)
                 if k not in defined:
                     raise Unsupported("list %s used before assignment" % k)
+                if self.is_set(self.vtypes.get(k)):
+                    raise Unsupported("list method on a set")
                 if st.value.func.attr == "append" and len(st.value.args) == 1:
                     out.append("%s%s := %s ++ [%s]" % (ind, self.vn(k), self.vn(k), self.expr(st.value.args[0])))
                 elif st.value.func.attr == "pop" and not st.value.args:
                     out.append("%s%s := (← pyPop %s)" % (ind, self.vn(k), self.vn(k)))
                 else:
                     raise Unsupported("list method call (line %d)" % st.lineno)
+                continue
+            if isinstance(st, ast.Expr) and isinstance(st.value, ast.Call) and isinstance(st.value.func, ast.Attribute) \
+                    and self.vkey(st.value.func.value) in self.vtypes and st.value.func.attr in ("add", "remove") \
+                    and self.is_set(self.vtypes.get(self.vkey(st.value.func.value))) and len(st.value.args) == 1:
+                k = self.vkey(st.value.func.value)
+                fnm = "pySetAdd" if st.value.func.attr == "add" else "(← pySetRemove"
+                if st.value.func.attr == "add":
+                    out.append("%s%s := pySetAdd %s %s" % (ind, self.vn(k), self.vn(k), self.expr(st.value.args[0], "num")))
+                else:
+                    out.append("%s%s := (← pySetRemove %s %s)" % (ind, self.vn(k), self.vn(k), self.expr(st.value.args[0], "num")))
                 continue
             if isinstance(st, ast.Assign) and len(st.targets) == 1 and isinstance(st.value, ast.Call) and \
                     isinstance(st.value.func, ast.Name) and st.value.func.id in self.local_fns:
@@ -684,13 +742,23 @@ class FnTr:
                     names = [self.vkey(x) for x in tgt.elts]
                     if any(n is None for n in names):
                         raise Unsupported("assignment target")
-                    if all(n in defined for n in names):
-                        out.append("%s(%s) := %s" % (ind, ", ".join(self.vn(n) for n in names), val))
-                    elif not any(n in defined for n in names):
-                        out.append("%slet mut (%s) := %s" % (ind, ", ".join(self.vn(n) for n in names), val))
-                        defined.update(names)
-                    else:
-                        raise Unsupported("tuple assignment mixing new and old variables")
+                    vt = self.etype(st.value)
+                    if self.is_opt(vt):
+                        vt = vt[1]
+                        val = self.expr(st.value, "num")
+                    if vt is None or isinstance(vt, str) or vt[0] != "tuple" or len(vt[1]) != len(names):
+                        raise Unsupported("tuple assignment from a value of type %r" % (vt,))
+                    tmp = "tup_%d" % self.fresh()
+                    out.append("%slet %s := %s" % (ind, tmp, val))
+                    for i2, nme in enumerate(names):
+                        if nme == "_":
+                            continue
+                        proj = ".2" * i2 + (".1" if i2 < len(names) - 1 else "")
+                        if nme in defined:
+                            out.append("%s%s := %s%s" % (ind, self.vn(nme), tmp, proj))
+                        else:
+                            out.append("%slet mut %s : %s := %s%s" % (ind, self.vn(nme), ty_str(self.vtypes.get(nme)), tmp, proj))
+                            defined.add(nme)
                     continue
                 k = self.vkey(tgt)
                 if k is None:
@@ -801,7 +869,9 @@ class FnTr:
             name = e.id
         m = {"ValueError": ".valueError", "RuntimeError": ".runtimeError", "AssertionError": ".assertionError",
              "IndexError": ".indexError", "KeyError": ".keyError", "TypeError": ".typeError",
-             "StopIteration": ".stopIteration", "NotImplementedError": ".notImplementedError"}
+             "StopIteration": ".stopIteration", "NotImplementedError": ".notImplementedError",
+             "InvalidForwardStep": ".invalidForwardStep", "InvalidReverseStep": ".invalidReverseStep",
+             "InvalidRevolverAction": ".invalidRevolverAction", "InvalidActionIndex": ".invalidActionIndex"}
         if name not in m:
             raise Unsupported("raise %s" % name)
         return m[name]
@@ -909,7 +979,8 @@ class FnTr:
             assigned = assigned + [k for k in ["out_"] + (["passes_left"] if self.gen.get("passes") else []) +
                                    (["self.n", "self.max_n"] if self.gen.get("online") else []) if k not in assigned]
         for x in ast.walk(st):   # lists changed by append / pop
-            if isinstance(x, ast.Call) and isinstance(x.func, ast.Attribute) and x.func.attr in ("append", "pop"):
+            if isinstance(x, ast.Call) and isinstance(x.func, ast.Attribute) and \
+                    x.func.attr in ("append", "pop", "add", "remove"):
                 k = self.vkey(x.func.value)
                 if k in self.vtypes and k not in assigned:
                     assigned.append(k)
@@ -919,7 +990,7 @@ class FnTr:
             if called:
                 for k in self.assigned(fn.body) + [self.vkey(x.func.value) for x in ast.walk(fn)
                                                    if isinstance(x, ast.Call) and isinstance(x.func, ast.Attribute)
-                                                   and x.func.attr in ("append", "pop")]:
+                                                   and x.func.attr in ("append", "pop", "add", "remove")]:
                     if k in self.vtypes and k not in assigned:
                         assigned.append(k)
         mutated = [k for k in assigned if k in defined]
@@ -1031,6 +1102,55 @@ class FnTr:
         return "\n\n".join(["\n".join(lines)]) if not self.aux else "\n\n".join(self.aux + ["\n".join(lines[len(self.aux):])]), fuel
 
 
+def prune_constants(fn, env):
+    """Specialise a function body to module-level names with a known constant value (here: `numba = None`, the
+    library's own fallback when numba is not installed): tests `X is None` on such names are decided, the dead
+    branch is dropped, and a local that is assigned exactly once, to `None`, is treated the same way."""
+    import copy
+    fn = copy.deepcopy(fn)
+    env = dict(env)
+    for _ in range(4):
+        counts = {}
+        for x in ast.walk(fn):
+            tg = []
+            if isinstance(x, ast.Assign):
+                tg = [(t, x.value) for t in x.targets]
+            elif isinstance(x, ast.AugAssign):
+                tg = [(x.target, None)]
+            for t, v in tg:
+                for y in (t.elts if isinstance(t, ast.Tuple) else [t]):
+                    if isinstance(y, ast.Name):
+                        counts.setdefault(y.id, []).append(v)
+        for k, vs in counts.items():
+            if len(vs) == 1 and isinstance(vs[0], ast.Constant) and vs[0].value is None and k not in env:
+                env[k] = None
+
+        class T(ast.NodeTransformer):
+            def visit_Compare(s2, node):
+                s2.generic_visit(node)
+                if isinstance(node.left, ast.Name) and node.left.id in env and env[node.left.id] is None \
+                        and len(node.ops) == 1 and isinstance(node.comparators[0], ast.Constant) \
+                        and node.comparators[0].value is None and isinstance(node.ops[0], (ast.Is, ast.IsNot)):
+                    return ast.copy_location(ast.Constant(value=isinstance(node.ops[0], ast.Is)), node)
+                return node
+
+            def visit_If(s2, node):
+                s2.generic_visit(node)
+                if isinstance(node.test, ast.Constant) and isinstance(node.test.value, bool):
+                    return node.body if node.test.value else (node.orelse or [ast.copy_location(ast.Pass(), node)])
+                return node
+
+            def visit_Assign(s2, node):
+                s2.generic_visit(node)
+                if len(node.targets) == 1 and isinstance(node.targets[0], ast.Name) and node.targets[0].id in env \
+                        and node.targets[0].id in counts:
+                    return ast.copy_location(ast.Pass(), node)
+                return node
+        fn = T().visit(fn)
+        ast.fix_missing_locations(fn)
+    return fn
+
+
 def find_def(tree, qual):
     parts = qual.split(".")
     body = tree.body
@@ -1095,6 +1215,9 @@ GENERATORS = [
     ("multistage.py", "MultistageCheckpointSchedule._iterator", "multistage_iterator",
      dict(F_BASE, snapshots_in_ram="Int", snapshots_on_disk="Int", storage=("list", ("enum", "StorageType")),
           trajectory="String", exhausted="Bool"), {"offline": True}),
+    ("mixed.py", "MixedCheckpointSchedule._iterator", "mixed_iterator",
+     dict(F_BASE, snapshots="Int", storage=("enum", "StorageType"), exhausted="Bool"),
+     {"offline": True, "consts": {"numba": None}}),
     ("twolevel_binomial.py", "TwoLevelCheckpointSchedule._iterator", "twoLevel_iterator",
      dict(F_BASE, period="Int", binomial_snapshots="Int", binomial_storage=("enum", "StorageType"),
           trajectory="String"), {"online": True, "passes": True}),
@@ -1187,6 +1310,8 @@ def generate(repo):
                 node = find_def(tree(f), qual)
                 if node.decorator_list:
                     raise Unsupported("decorated generator")
+                if gopts.get("consts"):
+                    node = prune_constants(node, gopts["consts"])
                 tr = FnTr(ctx, node, qual, lean, {}, False, self_fields=fields, gen=gopts,
                           src="%s:%d-%d" % (f, node.lineno, node.end_lineno))
                 text, fuel = tr.emit()
